@@ -53,7 +53,7 @@ def gen(r, tier, i):
                 here.remove(k)
                 return [kind, port, k]
             if kind == 'delete_var' and here:
-                return ['delete_var', port, r.choice(here), r.choice(['twice', 'quad', 'log'])]
+                return ['delete_var', port, r.choice(here), r.choice(['twice', 'quad', 'log', 'tri2'])]
             if kind == 'generate' and fresh:
                 k = fresh.pop(0)
                 here.append(k)
@@ -97,7 +97,9 @@ def cell_shadow(key, n, deriver, tags=None):
          'st': {'log': [], 'n': n, 'twice': 0, 'quad': 0}}
     if deriver:
         c['drv'] = ('P', t + '.drv')
+        c['drv2'] = ('P', t + '.drv2')
         c['st']['tri'] = 0
+        c['st']['tri2'] = 0
     return c
 
 
